@@ -4,7 +4,10 @@ import fsm_common as fc
 from common import diff_run
 
 LEVEL = "proof"
-RULE = ("the C10 op scripts (modes mixed / solid / aligned, boundary rounds, see C10) with more close/reopen/clear/release traffic; "
+RULE = ("the C10 op scripts (modes mixed / solid / aligned / overflow, boundary, cache and small-file rounds, see C10) with more "
+        "close/reopen/clear/release traffic; block sizes 64..4096 (every power of two); small files closed with trim "
+        "(fewer than 64 blocks in use behind the bitmap area, whose end is not a multiple of 64 blocks for block sizes >= 256: "
+        "file size after close and the bytes of the last region compared); "
         "rounds that close a file WITHOUT A SINGLE FREE BLOCK (empty free-extent tree: _fsm_close writes no header and does "
         "not trim) after 0..2 bitmap relocations, with / without a sync before or after the space is used up, trim / no-trim, "
         "then reopen: same bitmap area, same allocated blocks, same file size, live regions known, nothing to hand out; the "
@@ -17,7 +20,9 @@ RULE = ("the C10 op scripts (modes mixed / solid / aligned, boundary rounds, see
         "a case is one script or one bit query")
 ASSUME = ["mmap windows of the exfile are assumed to succeed in the model (their behaviour is C12's subject)",
           "non-strict mode: the client releases only (sub-ranges of) regions it owns",
-          "_fsm_find_prev_set_bit is queried on the domain the library uses (min_offset = 0 or a word-aligned offset)",
+          "_fsm_find_prev_set_bit is queried on the domain the library uses: lower bound 0 with any upper end, or any lower "
+          "bound with a word-aligned upper end (trim: lower bound = first block behind the bitmap area), or a lower bound "
+          "not above the word boundary below the upper end",
           "bitmaps with fewer than 2^32 bits"]
 
 
@@ -47,7 +52,19 @@ def bit_queries(rng, n):
             mx = rng.choice(edges) if rng.chance(2, 3) else rng.range(0, nb)
             out.append("fnext %s %d %d" % (hexs, off, mx))
         else:
-            mn = 0 if rng.chance(2, 3) else rng.choice([e for e in edges if e % 64 == 0])
+            # the library's domain: lower bound 0 (neighbour search of a release) or ANY lower bound with a word-aligned
+            # upper end (_fsm_trim_tail_lw: upper end = number of bits of the bitmap, lower bound = first block behind the
+            # bitmap area - in the middle of a word for block sizes of 256 bytes and more)
+            k = rng.below(6)
+            if k < 2:
+                mn = 0
+            elif k == 2:
+                mn = rng.choice([e for e in edges if e % 64 == 0])
+            else:
+                mn = rng.choice([1, 2, 4, 8, 16, 32, 48, 63, rng.range(0, nb)]) + 64 * rng.below(nw)
+                mn = min(mn, nb)
+                if rng.chance(3, 4):
+                    off = 64 * rng.range((mn + 63) // 64, nw)
             if off % 64 and mn > off - off % 64:
                 mn = 0
             out.append("fprev %s %d %d" % (hexs, off, mn))
